@@ -38,6 +38,7 @@ emit_out() {
 die() {
   case "$PRE_EXIT" in
     kill) kill -9 $$ ;;
+    pipe) kill -PIPE $$ ;;
     *) exit $PRE_EXIT ;;
   esac
 }
@@ -147,7 +148,7 @@ pub fn run(args: &Args) -> ! {
     let mut cases: Vec<PreCase> = vec![];
     for out in ["echo", "upper", "empty", "big", "bin"] {
         for err in ["none", "small", "big", "huge"] {
-            for exit in ["0", "1", "2", "255", "kill"] {
+            for exit in ["0", "1", "2", "255", "kill", "141", "pipe"] {
                 for when in ["before", "during", "after"] {
                     for rgmode in ["full", "-m1", "-q", "-l", "count", "implicit", "heading", "parallel", "json"] {
                         for glob in ["*.txt", "none", "!*.dat", "*.dat", "!*.txt"] {
@@ -321,7 +322,13 @@ pub fn run(args: &Args) -> ! {
                 if !stderr.is_empty() && c.err == "none" {
                     why.push(format!("a diagnostic although the command succeeded: {:?}", &stderr[..stderr.len().min(120)]));
                 }
-                if got.status != want.status {
+                // (a command that had written to stderr and is then cut off
+                // because rg stopped reading early: whether that counts as a
+                // failure is not specified by the statement and depends on a
+                // race between the command and the closing pipe — executed,
+                // not judged, DESIGN.md §8)
+                let cut_off_with_stderr = any_early && c.err != "none";
+                if got.status != want.status && !cut_off_with_stderr {
                     why.push(format!("exit status {} (searching the same bytes directly gives {})", got.status, want.status));
                 }
             } else if any_early && c.err == "none" && c.when == "after" && (c.out == "big" || (c.out == "bin" && !matches!(c.rgmode, "count" | "json"))) && got.status == 2 {
@@ -456,6 +463,55 @@ pub fn run(args: &Args) -> ! {
             }
             let _ = std::fs::remove_dir_all(&refdir);
             let _ = std::fs::remove_file(zd.join(&name));
+        }
+    }
+    // a decompressor that is noisy on stderr (a stand-in `gzip` first on PATH
+    // that writes N KiB of diagnostics before its output): large stderr must
+    // never block the search, through -z as through --pre
+    {
+        use std::os::unix::fs::PermissionsExt;
+        let shim_dir = scratch.path.join("shim");
+        std::fs::create_dir_all(&shim_dir).unwrap();
+        let real_gzip = String::from_utf8_lossy(&Command::new("sh").args(["-c", "command -v gzip"]).output().map(|o| o.stdout).unwrap_or_default()).trim().to_string();
+        if !real_gzip.is_empty() {
+            let shim = shim_dir.join("gzip");
+            std::fs::write(&shim, format!("#!/bin/sh\nhead -c $((NOISE_KIB * 1024)) /dev/zero | tr '\\0' 'e' >&2\nexec {} \"$@\"\n", real_gzip)).unwrap();
+            std::fs::set_permissions(&shim, std::fs::Permissions::from_mode(0o755)).unwrap();
+            let out = Command::new(&real_gzip).arg("-c").arg(zd.join("plain.txt")).output().unwrap_or_else(|_| machinery_error("gzip"));
+            std::fs::write(zd.join("noisy.gz"), &out.stdout).unwrap();
+            let path_env = format!("{}:{}", shim_dir.display(), std::env::var("PATH").unwrap_or_default());
+            for kib in [0usize, 1, 63, 64, 65, 128, 1024, 4096] {
+                for threads in ["-j1", "-j2"] {
+                    let got = run_timed(
+                        {
+                            let mut c = Command::new(&rg);
+                            c.current_dir(&zd).env("PATH", &path_env).env("NOISE_KIB", kib.to_string()).args(["--no-config", "--color", "never", "-z", "-n", threads, "needle", "noisy.gz", "plain.txt"]);
+                            c
+                        },
+                        horizon,
+                    );
+                    zruns += 1;
+                    total.judged_ok += 1;
+                    let text = String::from_utf8_lossy(&got.stdout).to_string();
+                    let mut why = vec![];
+                    if got.timed_out {
+                        why.push("rg -z did not finish within the horizon (blocked on the decompressor's stderr)".to_string());
+                    } else {
+                        if got.status != 0 {
+                            why.push(format!("exit status {} (the decompressor succeeded)", got.status));
+                        }
+                        if text.lines().filter(|l| l.starts_with("noisy.gz:")).count() != 2 {
+                            why.push("the results of the compressed file are not the two matching lines".to_string());
+                        }
+                    }
+                    if !why.is_empty() {
+                        total.disc.push((
+                            format!("z | decompressor writes {} KiB to stderr | {}", kib, threads),
+                            json!({"kind":"z-noisy","stderr_kib":kib,"threads":threads,"why":why,"status":got.status,"stdout":text,"timed_out":got.timed_out}),
+                        ));
+                    }
+                }
+            }
         }
     }
     // unrecognised extension and a plain file under -z are searched directly
